@@ -128,6 +128,38 @@ def eval_aliased(case):
     return OK(outcome=(w, centre, entry, table_hash(df, SHAPE_COLS + ['band_amp'])), nontrivial=True, evals=2)
 
 
+def eval_epoched(case):
+    """Tables returned per epoch by compute_features_2d(axis=None): every row, with the epoch offset added back to its
+    sample columns, must satisfy the shape definitions against the flattened signal."""
+    from bycycle.group import compute_features_2d
+    import pandas as pd
+    letters, (centre, E) = case[:-1], case[-1]
+    w = ''.join(letters)
+    o = S.resolve(('trough',) if centre == 'trough' else ())
+    sig = S.make_signal(w, o)
+    if len(sig) % E:
+        return SKIP('length not a multiple of the epoch length')
+    ok, why, ref = precondition(sig, o)
+    if not ok:
+        return SKIP(why)
+    dfs = compute_features_2d(sig.reshape(-1, E).copy(), 64, (6, 14), {'center_extrema': centre, 'threshold_kwargs': dict(S.T0)}, axis=None)
+    parts = []
+    for e, d in enumerate(dfs):
+        d = d.copy()
+        for c in d.columns:
+            if c.startswith('sample_'):
+                d[c] = d[c] + e * E
+        parts.append(d)
+    full = pd.concat(parts, ignore_index=True)
+    if len(full) == 0:
+        return SKIP('no cycles')
+    v = check_shape_table(full, sig, o, {'centre': centre, 'via': 'epoched', 'devs': []})
+    if v is not None:
+        v['msg'] = 'epoched table (offsets added back): ' + v['msg']
+        return v
+    return OK(outcome=(w, centre, E, table_hash(full, SHAPE_COLS)), nontrivial=sum(1 for d in dfs if len(d)) >= 2)
+
+
 # ---- helper functions on synthetic tiling tables ---------------------------------------------------
 _TABLES = {}
 
@@ -243,6 +275,9 @@ def spaces(tier, seed):
                                 describe='durations / voltages / symmetry on every tiling table over every signal of length 6'))
         out.append(ProductSpace('bandamp-words', S.word_dims(S.alphabet(4), 2), eval_bandamp,
                                 describe='compute_band_amp on 2-letter words x every tiling on the even grid x n_cycles 1,2'))
+        ep = [(c, E) for c in ('peak', 'trough') for E in (16, 24)]
+        out.append(ProductSpace('epoched-W(3,6)', S.word_dims(S.alphabet(3), 6) + [ep], eval_epoched,
+                                describe='epoch tables of compute_features_2d(axis=None) checked against the definitions'))
         ali_ = ['a', 'A', 'w', 'd']
         out.append(ProductSpace('Wint(4,5)', S.word_dims(ali_, 5) + [[('int',), ('int', 'trough')]], eval_pipeline,
                                 describe='integer-dtype signals whose rise + decay sums are odd (volt_amp has a fractional part)',
